@@ -506,4 +506,26 @@ def check_case(case):
             k = next((i for i, (x, y) in enumerate(zip(got, alt)) if not same([x], [y], i)), None)
             bad("rescaling-invariance", f"sample depth rescaled by 2^{-case['scale']}: " +
                 (f"{len(got)} vs {len(alt)} rows" if k is None else f"row {k}: {got[k]} vs {alt[k]}"))
+    # ---- command-line tier (a quarter of the cases): `cnvkit.py fix` on the written tables = do_fix on the same files
+    from vk import gen
+
+    if gen.pick(case, "cli", 4) == 0 and not out:
+        import os
+        import shutil
+        import tempfile
+
+        from skgenome import tabio
+        from vk import cli
+
+        d = tempfile.mkdtemp(prefix="vk04.")
+        try:
+            tf, af, rf = frames(case, tgt, anti, ref)
+            paths = [os.path.join(d, n) for n in ("S.targetcoverage.cnn", "S.antitargetcoverage.cnn", "ref.cnn")]
+            for arr, pth in zip((tf, af, rf), paths):
+                tabio.write(arr, pth)
+            diff = cli.fix_diff(paths[0], paths[1], paths[2], d, case["do_gc"], case["do_edge"], case["do_rmask"])
+            if diff:
+                bad("cli:fix", diff)
+        finally:
+            shutil.rmtree(d, ignore_errors=True)
     return out
